@@ -14,7 +14,8 @@
 From RV Require Import Base.
 From RV.Model Require Import CodePointSet Insn Fold IR ClassSet.
 From RV.Spec Require Import Spec.
-From RV.Proofs Require Import CpsProofs CpsWf ClassSetProofs ClassSetFull.
+From RV.Model Require Import Unfold.
+From RV.Proofs Require Import CpsProofs CpsWf Closure ClassSetProofs ClassSetFull.
 
 Definition inb := CpsProofs.inb.
 
@@ -100,6 +101,15 @@ Theorem c12_class_set_expression_meaning_with_strings : forall (eqclass : N -> l
 Proof.
   intros eqclass Hec icase e Hok. destruct (eval_means_full eqclass Hec icase e Hok) as ([Hw _] & M & S). auto.
 Qed.
+
+(* ... with the equivalence classes the implementation itself computes (unfold_char, proved in C10 to enumerate the
+   canonical class of every code point) no hypothesis is left *)
+Theorem c12_class_set_expression_meaning_closed : forall icase e, vok e = true ->
+  cps_wf (cs_cps (eval icase e)) = true /\
+  (forall x, x <= CODE_POINT_MAX ->
+     cps_contains (cs_cps (eval icase e)) x || single_mem (cs_alts (eval icase e)) x = vmem fold unfold_char icase e x) /\
+  (forall str, In str (multis (cs_alts (eval icase e))) <-> In str (vstrs fold icase e)).
+Proof. exact (c12_class_set_expression_meaning_with_strings unfold_char unfold_char_spec). Qed.
 
 (* Non-vacuity: [\w--[k]] under iv has neither k nor K nor U+212A (the case that failed before the repair of D16) *)
 Example c12_class_example :
